@@ -22,7 +22,8 @@ BatchJudge(e) == Obl("C02", e.sc, <<e.kind, e.type, e.tried > 0, e.ok > 0>>) /\ 
 Judge(e) ==
   LET sc == e.sc r == e.r ty == e.type gen == ~Has(e, "mut") IN
   \* input class for failure signatures: how the specification's own parser sees the input
-  IF Has(r, "abort") THEN Fail("C02", "Parse/abort/" \o InClass(e["in"]), sc, [ty |-> ty, input |-> e["in"]])
+  IF Has(r, "hang") THEN Fail("C02", "Parse/does-not-return/" \o InClass(e["in"]), sc, [ty |-> ty, input |-> e["in"]])
+  ELSE IF Has(r, "abort") THEN Fail("C02", "Parse/abort/" \o InClass(e["in"]), sc, [ty |-> ty, input |-> e["in"]])
   ELSE IF Has(r, "panic") THEN Fail("C02", "Parse/panic/" \o InClass(e["in"]), sc, [ty |-> ty, why |-> r.panic, input |-> e["in"]])
   ELSE IF ~Has(r, "ok") THEN
        \* a value BUILT through the typed API must decode from its own bytes; a generated instance may be refused (noted)
